@@ -349,6 +349,16 @@ func runNTP(c *vf.Case) {
 				sec = maxUnix - 1
 			}
 		}
+		if c.R.Chance(0.04) {
+			// the first / last second of an 18 h window of the 32-bit middle form: values 0,
+			// 0x0000xxxx and 0xffffxxxx (a zero timestamp is an ordinary value here)
+			k := (sec + epoch1900Offset) >> 16
+			if ws := k<<16 - epoch1900Offset; ws > 0 && ws+65535 < maxUnix {
+				sec = ws + int64(c.R.Pick(0, 0, 0, 1, 65535))
+				ns = int64(c.R.Pick(2000, 2500, 8000, 15000, 15258, 15259, 30000, c.R.Intn(1000000000)))
+				c.Add("ntp32_instants_in_first_or_last_second_of_window", 1)
+			}
+		}
 		t := time.Unix(sec, ns)
 		h.U64(uint64(t.UnixNano()))
 		v := ntp.ToNTP(t)
